@@ -3,6 +3,7 @@ import BpModel.Spec
 import BpProofs.SpecCore
 import BpProofs.SpecPack
 import BpProofs.SpecEnc
+import BpProofs.SpecPerm2
 /-
   C02 — wire interoperability with the reference protobuf implementation.
 
@@ -43,6 +44,46 @@ theorem load_unknown_interleave (S : Schema) (rec : Loader) (d : MsgD) (st : MSt
     (h : (pfs.filter fun pf => !isUnknownField d pf) = (pfs'.filter fun pf => !isUnknownField d pf)) :
     (foldFields S rec d st pfs).map core = (foldFields S rec d st pfs').map core := by
   rw [foldFields_core_filter, foldFields_core_filter S rec d pfs', h]
+
+
+/-! ### any field order -/
+
+/-- **any field order** — the reordering the wire format permits without changing the
+    meaning.  Every record has a class for the receiving message class `d` (`classOf`): the
+    declared field its number denotes (if the wire type fits and the field is in no oneof),
+    the oneof group of that field, or "unknown".  If two record lists contain, for every
+    field and every oneof group, the same records of that class in the same relative order,
+    they decode to the same field values, oneof selection and presence — records of
+    different fields that are not members of one oneof group may be interleaved in ANY way,
+    and unknown records may stand anywhere (or be missing).  If the first list decodes, so
+    does the second.  `st.onWire = true` is what `Message.load` establishes before its loop.
+
+    Proof: frame (`applyField_other_class`: a record leaves the footprint of every other
+    class untouched) + locality (`applyField_local`: its effect on its own footprint depends
+    on that footprint only) ⟹ the footprint of a class after the whole list is the footprint
+    after the sub-list of that class (`proj_fold`), by induction over the record list. -/
+theorem load_perm_classes (S : Schema) (rec : Loader) (d : MsgD) (pfs pfs' : List PField) (st st1 : MState)
+    (how : st.onWire = true)
+    (hsame : ∀ c, Legit d c → c ≠ Cls.unknown → pfs.filter (ofClass d c) = pfs'.filter (ofClass d c))
+    (h : foldFields S rec d st pfs = .ok st1) :
+    ∃ st2, foldFields S rec d st pfs' = .ok st2 ∧ core st2 = core st1 :=
+  foldFields_perm S rec d pfs pfs' st st1 how hsame h
+
+/-- the two-record case (the commutation lemma): records of different classes commute -/
+theorem load_swap (S : Schema) (rec : Loader) (d : MsgD) (before after : List PField) (p q : PField) (st st1 : MState)
+    (how : st.onWire = true) (hpq : classOf d p ≠ classOf d q)
+    (h : foldFields S rec d st (before ++ p :: q :: after) = .ok st1) :
+    ∃ st2, foldFields S rec d st (before ++ q :: p :: after) = .ok st2 ∧ core st2 = core st1 := by
+  apply foldFields_perm S rec d _ _ st st1 how _ h
+  intro c _ _
+  simp only [List.filter_append, List.filter_cons]
+  by_cases h1 : ofClass d c p = true <;> by_cases h2 : ofClass d c q = true
+  · exfalso
+    simp only [ofClass, decide_eq_true_eq] at h1 h2
+    exact hpq (h1.trans h2.symm)
+  · simp [h1, h2]
+  · simp [h1, h2]
+  · simp [h1, h2]
 
 /-! ### packed / unpacked repeated scalars, chunks -/
 
